@@ -105,6 +105,13 @@ class Module:
             if res is not out and not hasattr(res, "_vt_qual"):
                 res._vt_qual = qual          # type: ignore[attr-defined]
                 res._vt_origin = fs[index]   # type: ignore[attr-defined]
+            if res is not out:
+                # reading through an alias may have uncovered a call of a helper (`buffer = self._buffer; await buffer(x)`)
+                res2 = self._expander.expand(qual, index + 100000, res)
+                if res2 is not res:
+                    res2._vt_qual = qual         # type: ignore[attr-defined]
+                    res2._vt_origin = fs[index]  # type: ignore[attr-defined]
+                    res = res2
             # a loop over a local comprehension is that comprehension's loop nest
             comp_locals = {t.id for a in ast.walk(res) if isinstance(a, ast.Assign) and isinstance(a.value, (ast.GeneratorExp, ast.ListComp)) for t in a.targets if isinstance(t, ast.Name)}
             if comp_locals and any(isinstance(f_, ast.For) and isinstance(f_.iter, ast.Name) and f_.iter.id in comp_locals for f_ in ast.walk(res)):
@@ -175,6 +182,17 @@ class Module:
                 tgt, val = st.targets[0].id, st.value
             elif isinstance(st, ast.AnnAssign) and isinstance(st.target, ast.Name) and st.value is not None:
                 tgt, val = st.target.id, st.value
+            if isinstance(st, ast.Assign) and len(st.targets) == 1 and isinstance(st.targets[0], (ast.Tuple, ast.List)) and all(isinstance(e, ast.Name) for e in st.targets[0].elts):
+                # A, B, C = range(3) / = (1, 2, 3)
+                try:
+                    vals = fold(st.value, self._consts)
+                    if isinstance(vals, tuple) and len(vals) == len(st.targets[0].elts):
+                        for e, v_ in zip(st.targets[0].elts, vals):
+                            self._consts[e.id] = v_
+                except _Unfoldable:
+                    for e in st.targets[0].elts:
+                        self._consts.pop(e.id, None)
+                continue
             if tgt is not None:
                 try:
                     self._consts[tgt] = fold(val, self._consts)
@@ -387,6 +405,14 @@ def fold(node: ast.AST, env: Dict[str, Any]) -> Any:
             return float(node.args[0].value)
         except ValueError:
             raise _Unfoldable("float()")
+    if isinstance(node, ast.Call) and isinstance(node.func, ast.Name) and node.func.id == "range" and not dict.__contains__(env, "range") and 1 <= len(node.args) <= 3 \
+            and not node.keywords:
+        args = [fold(a, env) for a in node.args]
+        if all(isinstance(a, int) and not isinstance(a, bool) for a in args):
+            r = range(*args)
+            if len(r) <= 4096:
+                return tuple(r)
+        raise _Unfoldable("range")
     if isinstance(node, ast.Dict) and node.keys and all(k is not None or True for k in node.keys):
         # a table whose *values* are references to functions / classes (decoder tables): keep those as symbolic names
         out2 = {}
